@@ -553,8 +553,11 @@ def gen_interrupt(rng: random.Random) -> dict:
             params.append(["x", None])
         k = None if rng.random() < 0.6 else rng.randint(0, 3)
         node = {"name": iname, "kind": "interrupt", "params": params, "dataOuts": outs, "body": {"b": "handler", "k": k}}
-        if rng.random() < 0.3:
+        if rng.random() < 0.4:
             node["emits"] = [f"asked{i}"]
+            if rng.random() < 0.7:
+                # a node ordered after the interrupt by its signal only
+                nodes.append(_fn_node(f"audit{i}", [["x", None]], [f"aud{i}"], {"b": "tag", "t": f"audit{i}"}, waitFor=[f"asked{i}"]))
         nodes.append(node)
         # a sibling that is ready in the same step as the interrupt
         if rng.random() < 0.5:
